@@ -5,7 +5,8 @@ HERE = os.path.dirname(os.path.dirname(os.path.abspath(__file__)))
 
 TECH = "bounded symbolic execution of the real cooler source (own z3-based path explorer over numpy/pandas/h5py shims); solver verdict per path; counterexamples replayed on the real stack"
 NOTE = ("Trusted: z3; the shim models of numpy/pandas/h5py operations on symbolic data (cross-validated on every explored path "
-        "against the real stack: same inputs, same public-API call, same observable); Python ints as mathematical integers. "
+        "against the real stack: same inputs, same public-API call, same observable); Python ints and 64-bit array words as mathematical "
+        "integers (no harness value reaches 2^62), narrower integer types wrap modulo 2^k. "
         "Bounds and stubs per check are listed in the evidence file.")
 
 CLAIMED = {
